@@ -12,7 +12,8 @@ Definition prot : nat -> nat := fun _ => MTX.    (* every location (the wrapped 
 
 (* the Lockset state agrees with the model's mutex *)
 Definition Sim (g : glob) (st : Lockset.st) : Prop :=
-  own st MTX = owner g /\ forall u, In u (shr st MTX) <-> In u (sharers g).
+  own st MTX = owner g /\
+  forall u, count_occ Nat.eq_dec (shr st MTX) u = count_occ Nat.eq_dec (sharers g) u.   (* equal as multisets *)
 
 Definition lines_of (t : nat) (es : list ev) : list line := map (ev_line t) es.
 Definition acts (t : nat) (es : list ev) : list act := acts_of (lines_of t es).
@@ -50,35 +51,49 @@ Proof.
 Qed.
 
 (* ---------- the Lockset side of taking / releasing the mutex ---------- *)
+Lemma count_zero_nil (l : list nat) : (forall u, count_occ Nat.eq_dec l u = 0%nat) -> l = [].
+Proof.
+  destruct l as [|x r]; [reflexivity|]. intros H. specialize (H x). cbn in H.
+  destruct (Nat.eq_dec x x); [discriminate|congruence].
+Qed.
+Lemma count_occ_rm t l u :
+  count_occ Nat.eq_dec (rm t l) u = if Nat.eqb u t then pred (count_occ Nat.eq_dec l t) else count_occ Nat.eq_dec l u.
+Proof.
+  induction l as [|x r IH]; cbn [rm count_occ].
+  - destruct (Nat.eqb u t); reflexivity.
+  - destruct (Nat.eqb_spec x t) as [Ext|Hne].
+    + subst x. destruct (Nat.eq_dec t t) as [_|Hn]; [|congruence].
+      destruct (Nat.eqb_spec u t) as [Eut|Hut]; [subst u; reflexivity|].
+      destruct (Nat.eq_dec t u); [congruence|reflexivity].
+    + cbn [count_occ]. rewrite IH. clear IH.
+      destruct (Nat.eqb_spec u t) as [Eut|Hut].
+      * subst u. destruct (Nat.eq_dec x t); [congruence|reflexivity].
+      * reflexivity.
+Qed.
+
 Lemma sim_take sm t g st n : Sim g st -> obtainable sm g = true ->
-  (sm = true -> ~ In t (sharers g)) ->
   ok prot st (if sm then AcqS t MTX else Acq t MTX) /\
   Sim (set_nacq (take sm t g) n) (Lockset.step st (if sm then AcqS t MTX else Acq t MTX)).
 Proof.
-  intros [So Ss] Hob Hnin. unfold obtainable, free_s, free_x in Hob. destruct sm; cbn [ok Lockset.step].
-  - destruct (owner g) eqn:Eo; [discriminate|]. split.
-    + split; [congruence|]. rewrite Ss. auto.
-    + split; cbn [own shr take set_nacq set_mutex owner sharers]; unfold fupd; rewrite ?Nat.eqb_refl; [congruence|].
-      intros u. rewrite in_app_iff. cbn [In]. rewrite <- Ss. tauto.
+  intros [So Ss] Hob. unfold obtainable, free_s, free_x in Hob. destruct sm; cbn [ok Lockset.step].
+  - destruct (owner g) eqn:Eo; [discriminate|]. split; [congruence|].
+    split; cbn [own shr take set_nacq set_mutex owner sharers]; unfold fupd; rewrite ?Nat.eqb_refl; [congruence|].
+    intros u. rewrite count_occ_app. cbn [count_occ]. rewrite Ss. destruct (Nat.eq_dec t u); lia.
   - destruct (owner g) eqn:Eo; [discriminate|]. destruct (sharers g) eqn:Es; [|discriminate]. split.
-    + split; [congruence|]. destruct (shr st MTX) as [|a r] eqn:E; [reflexivity|]. exfalso. apply (Ss a). left; reflexivity.
+    + split; [congruence|]. apply count_zero_nil. intros u. rewrite Ss. reflexivity.
     + split; cbn [own shr take set_nacq set_mutex owner sharers]; unfold fupd; rewrite ?Nat.eqb_refl; [reflexivity|].
       rewrite Es. exact Ss.
 Qed.
-Lemma In_remove1 t u l : (count_occ Nat.eq_dec l t <= 1)%nat -> (In u (remove1 t l) <-> In u l /\ u <> t).
-Proof.
-  intros Hc. rewrite !(count_occ_In Nat.eq_dec). rewrite count_occ_remove1.
-  destruct (Nat.eqb_spec u t) as [->|Hne]; [|intuition lia]. intuition lia.
-Qed.
 Lemma sim_drop sm t g st i : Sim g st ->
-  (sm = false -> owner g = Some t) -> (sm = true -> In t (sharers g) /\ (count_occ Nat.eq_dec (sharers g) t <= 1)%nat) ->
+  (sm = false -> owner g = Some t) -> (sm = true -> In t (sharers g)) ->
   ok prot st (if sm then RelS t MTX else Rel t MTX) /\
   Sim (add_released (drop sm t g) i) (Lockset.step st (if sm then RelS t MTX else Rel t MTX)).
 Proof.
   intros [So Ss] Hx Hs. destruct sm; cbn [ok Lockset.step].
-  - destruct (Hs eq_refl) as [Hin Hc]. split; [apply Ss; exact Hin|].
-    split; cbn [own shr drop add_released set_mutex owner sharers]; unfold fupd; rewrite ?Nat.eqb_refl; [exact So|].
-    intros u. rewrite In_rm, (In_remove1 _ _ _ Hc), Ss. tauto.
+  - pose proof (Hs eq_refl) as Hin. split.
+    + apply (count_occ_In Nat.eq_dec). rewrite Ss. apply (count_occ_In Nat.eq_dec). exact Hin.
+    + split; cbn [own shr drop add_released set_mutex owner sharers]; unfold fupd; rewrite ?Nat.eqb_refl; [exact So|].
+      intros u. rewrite count_occ_rm, count_occ_remove1, !Ss. reflexivity.
   - split; [rewrite So; auto|].
     split; cbn [own shr drop add_released set_mutex owner sharers]; unfold fupd; rewrite ?Nat.eqb_refl; [reflexivity|exact Ss].
 Qed.
@@ -137,20 +152,18 @@ Proof.
   rewrite (locof_at _ _ _ Hl) in E. unfold shc in E. lia.
 Qed.
 
-Definition single_shared (g : glob) : Prop := forall u, (count_occ Nat.eq_dec (sharers g) u <= 1)%nat.
-
 Lemma step0_acts cf g ls t c l g' l' es st :
-  Inv1 cf g ls -> Inv2 cf g ls -> safe cf g -> single_shared g -> single_shared g' ->
+  Inv1 cf g ls -> Inv2 cf g ls -> safe cf g ->
   nth_error ls t = Some l -> tstep0 cf t c g l = Some (g', l', es) -> Sim g st ->
   trace_ok prot st (acts t es) /\ Sim g' (exec prot st (acts t es)).
 Proof.
-  intros H1 H2 Hsafe Hss Hss' Hl Hs HS.
+  intros H1 H2 Hsafe Hl Hs HS.
   destruct (I_ok _ _ _ H1 _ _ Hl) as [Hlen Hpc].
   destruct l as [pr p sl]. cbn [at_ slots] in Hpc.
-  assert (Htake : forall am sm g1 okk e tailv, acquire am sm t c g = Some (g1, okk, e) -> single_shared g1 ->
+  assert (Htake : forall am sm g1 okk e tailv, acquire am sm t c g = Some (g1, okk, e) ->
             acts t tailv = [] ->
             trace_ok prot st (acts t (e :: tailv)) /\ Sim g1 (exec prot st (acts t (e :: tailv)))).
-  { intros am sm g1 okk e tailv Ha Hss1 Htl. rewrite (acquire_ev _ _ _ _ _ _ _ _ Ha).
+  { intros am sm g1 okk e tailv Ha Htl. rewrite (acquire_ev _ _ _ _ _ _ _ _ Ha).
     change (acts t (E (k_acq am sm) O_MTX (match am with ABlock => 0 | _ => b2z okk end) :: tailv))
       with (acts t ([E (k_acq am sm) O_MTX (match am with ABlock => 0 | _ => b2z okk end)] ++ tailv)).
     rewrite acts_app, Htl, app_nil_r, acts_lock_ev by (destruct am; [left; reflexivity|destruct okk; auto|destruct okk; auto]).
@@ -158,11 +171,7 @@ Proof.
     - destruct (acquire_true _ _ _ _ _ _ _ Ha) as [Hob ->].
       match goal with |- context [if ?cnd then [_] else []] => replace cnd with true by (destruct am; reflexivity) end.
       cbv beta iota. cbn [trace_ok exec].
-      assert (Hnin : sm = true -> ~ In t (sharers g)).
-      { intros -> Hin. apply (count_occ_In Nat.eq_dec) in Hin. specialize (Hss1 t).
-        cbn [take set_nacq set_mutex sharers] in Hss1. rewrite count_occ_app in Hss1. cbn in Hss1.
-        destruct (Nat.eq_dec t t); [lia|congruence]. }
-      destruct (sim_take sm t g st (S (nacq g)) HS Hob Hnin) as [A B]. split; [split; [exact A|exact I]|exact B].
+      destruct (sim_take sm t g st (S (nacq g)) HS Hob) as [A B]. split; [split; [exact A|exact I]|exact B].
     - destruct (acquire_false _ _ _ _ _ _ _ Ha) as [Hob ->].
       assert (am <> ABlock) as Hnb by (intros ->; unfold acquire in Ha; rewrite Hob in Ha; discriminate).
       match goal with |- context [if ?cnd then [_] else []] => replace cnd with false by (destruct am; [congruence|reflexivity|reflexivity]) end.
@@ -175,7 +184,7 @@ Proof.
     rewrite acts_app, Htl, app_nil_r, acts_unlock_ev. cbn [trace_ok exec].
     destruct (sim_drop sm t g st i HS) as [A B].
     - intros E. eapply holder_x; eauto.
-    - intros E. split; [eapply holder_s; eauto|apply Hss].
+    - intros E. eapply holder_s; eauto.
     - split; [split; [exact A|exact I]|exact B]. }
   assert (Hsame : forall g1, owner g1 = owner g -> sharers g1 = sharers g -> Sim g1 st).
   { intros g1 Eo Es. destruct HS as [A B]. split; [rewrite Eo; exact A|rewrite Es; exact B]. }
@@ -206,7 +215,8 @@ Proof.
     destruct (rw_trace_ok t (ro_mi i) _ (exec_mi_acts cf t i ph r ok g) st) as [A [B C]].
     { destruct HS as [So Ss]. destruct (Hc _ _ _ _ _ eq_refl) as [Hx|[Hsh Hn]].
       - left. rewrite So. eapply holder_x; eauto. lia.
-      - right. split; [apply Ss; eapply holder_s; eauto|]. cbn in Hn. apply andb_true_iff in Hn. tauto. }
+      - right. split; [|cbn in Hn; apply andb_true_iff in Hn; tauto].
+        apply (count_occ_In Nat.eq_dec). rewrite Ss. apply (count_occ_In Nat.eq_dec). eapply holder_s; eauto. }
     split; [exact A|]. destruct (exec_mi_mutex cf t i ph r ok g) as [Eo Es]. destruct HS as [So Ss].
     split; [rewrite B, Eo; exact So|rewrite C, Es; exact Ss].
   - (* GRel *) unfold tstep0 in Hs. cbn [at_ slots prog] in Hs.
@@ -269,18 +279,17 @@ Qed.
 
 (* one step of either kind *)
 Lemma step_acts cf g ls t c l g' l' es st :
-  Inv1 cf g ls -> Inv2 cf g ls -> safe cf g -> single_shared g -> single_shared g' ->
+  Inv1 cf g ls -> Inv2 cf g ls -> safe cf g ->
   nth_error ls t = Some l -> tstep cf t c g l = Some (g', l', es) -> Sim g st ->
   trace_ok prot st (acts t es) /\ Sim g' (exec prot st (acts t es)).
 Proof.
-  intros H1 H2 Hsafe Hss Hss' Hl Hs HS.
+  intros H1 H2 Hsafe Hl Hs HS.
   destruct (tstep_inv _ _ _ _ _ _ Hs) as [g1 [l1 [es1 [E0 [Hn Hp]]]]].
   destruct (plain cf) eqn:Ep.
   - specialize (Hp eq_refl). symmetry in Hp.
     destruct (settle_mutex _ _ _ _ _ _ _ _ _ Hp) as [Eo Es].
     rewrite (settle_acts _ _ _ _ _ _ _ _ _ Hp).
-    assert (single_shared g1) as Hss1 by (intros u; rewrite <- Es; apply Hss').
-    destruct (step0_acts cf g ls t c l g1 l1 es1 st H1 H2 Hsafe Hss Hss1 Hl E0 HS) as [A [So Ss]].
+    destruct (step0_acts cf g ls t c l g1 l1 es1 st H1 H2 Hsafe Hl E0 HS) as [A [So Ss]].
     split; [exact A|]. split; [rewrite Eo; exact So|rewrite Es; exact Ss].
   - injection (Hn (or_introl eq_refl)) as -> -> ->. eapply step0_acts; eauto.
 Qed.
@@ -316,76 +325,45 @@ Proof.
   eapply (misuse_step cf (misuse (gl s))); eauto.
 Qed.
 
-(* P holds in every state the schedule goes through *)
-Fixpoint always (cf : config) (P : sysW -> Prop) (s : sysW) (sched : list (nat * nat)) : Prop :=
-  P s /\ match sched with [] => True | tc :: r => always cf P (Sched.step glob loc (tstep cf) s tc) r end.
-Definition no_reshare (s : sysW) : Prop := single_shared (gl s).
-
 Lemma run_lines_acts cf progs : forall sched s st,
-  R cf progs s -> safe cf (gl (run glob loc (tstep cf) s sched)) -> always cf no_reshare s sched -> Sim (gl s) st ->
+  R cf progs s -> safe cf (gl (run glob loc (tstep cf) s sched)) -> Sim (gl s) st ->
   trace_ok prot st (acts_of (snd (run_lines glob loc (tstep cf) s sched))).
 Proof.
-  induction sched as [|[t c] r IH]; intros s st HR Hsafe Hal HS; cbn [run_lines]; [exact I|].
-  destruct Hal as [Hss Hal].
+  induction sched as [|[t c] r IH]; intros s st HR Hsafe HS; cbn [run_lines]; [exact I|].
   assert (Hsafe0 : safe cf (gl s)).
   { destruct Hsafe as [Hlk Hm]. split; [exact Hlk|]. pose proof (misuse_run cf ((t, c) :: r) s). lia. }
   pose proof (R_step cf progs s (t, c) HR) as HR'.
   cbn [run fold_left] in Hsafe. fold (run glob loc (tstep cf) (Sched.step glob loc (tstep cf) s (t, c)) r) in Hsafe.
-  unfold Sched.step in HR', Hsafe, Hal.
-  destruct (sys_step glob loc (tstep cf) s (t, c)) as [s' o] eqn:E. cbn [fst] in HR', Hsafe, Hal.
+  unfold Sched.step in HR', Hsafe.
+  destruct (sys_step glob loc (tstep cf) s (t, c)) as [s' o] eqn:E. cbn [fst] in HR', Hsafe.
   specialize (IH s'). destruct (run_lines glob loc (tstep cf) s' r) as [s'' ls] eqn:Er. cbn [snd] in *.
   rewrite acts_of_app. apply trace_ok_app.
-  assert (Hss' : no_reshare s') by (destruct r; destruct Hal as [Hx _]; exact Hx).
   unfold sys_step in E. destruct (nth_error (thr s) t) as [l|] eqn:El.
   - destruct (tstep cf t c (gl s) l) as [[[g' l'] es]|] eqn:Est; inversion E; subst s' o; cbn [out_lines].
     + destruct (R_inv _ _ _ HR) as [H1 H2].
-      destruct (step_acts cf _ _ t c l g' l' es st H1 H2 Hsafe0 Hss Hss' El Est HS) as [A B].
+      destruct (step_acts cf _ _ t c l g' l' es st H1 H2 Hsafe0 El Est HS) as [A B].
       split; [exact A|]. apply IH; auto.
     + cbn. split; [exact I|]. apply IH; auto.
   - inversion E; subst s' o. cbn. split; [exact I|]. apply IH; auto.
 Qed.
 
 Lemma Sim_init cf progs : Sim (gl (init cf progs)) st0.
-Proof. split; cbn; [reflexivity|tauto]. Qed.
+Proof. split; cbn; reflexivity. Qed.
 
 (* the lock discipline of the observable trace of every run (both payload kinds, every flavour, mutex kind,
-   throw plan): locking enabled, no client use of a moved-from handle, and - an obligation of Lockset's
-   shared-lock rule, which knows sets of sharers - no thread holding the shared lock twice at the same time *)
+   throw plan, any number of handles per thread): with locking enabled and no client use of a moved-from handle,
+   every payload window edge of the trace happens while the acting thread holds the wrapper's mutex - exclusively
+   for writes - and the mutex events form a valid lock history *)
 Theorem wr_trace_discipline cf progs sched :
   safe cf (gl (run glob loc (tstep cf) (init cf progs) sched)) ->
-  always cf no_reshare (init cf progs) sched ->
   trace_ok prot st0 (acts_of (snd (run_lines glob loc (tstep cf) (init cf progs) sched))).
 Proof.
-  intros Hs Ha. apply (run_lines_acts cf progs sched (init cf progs) st0); auto.
+  intros Hs. apply (run_lines_acts cf progs sched (init cf progs) st0); auto.
   - apply reachable_refl.
   - apply Sim_init.
 Qed.
+(* hence no non-atomic access of the trace races with a previous conflicting one (happens-before, Lockset.v) *)
 Corollary wr_hb_race_free cf progs sched :
   safe cf (gl (run glob loc (tstep cf) (init cf progs) sched)) ->
-  always cf no_reshare (init cf progs) sched ->
   ~ races st0 (acts_of (snd (run_lines glob loc (tstep cf) (init cf progs) sched))).
-Proof. intros Hs Ha. apply (lockset_race_free_init prot). apply wr_trace_discipline; assumption. Qed.
-
-(* the extra obligation is void for mutex / timed_mutex, where nothing is ever held in shared mode *)
-Lemma plain_mutex_no_reshare cf progs s : shcap cf = false -> R cf progs s -> no_reshare s.
-Proof.
-  intros Hc HR u. destruct (R_inv1 _ _ _ HR) as [_ _ IS _]. specialize (IS u). unfold shc in IS. rewrite <- IS.
-  unfold lsh. assert (Hz : forall x, hs cf x = 0%nat) by (intros x; unfold hs; rewrite Hc, !andb_false_r; reflexivity).
-  rewrite cnt_zero by (intros; apply Hz).
-  destruct (at_ (locof (thr s) u)); cbn [pcs]; try lia.
-  - rewrite Hz. lia.
-  - destruct fr; cbn; try lia. unfold gmode. destruct (wop_code cf o) as [[gsh ?]|]; rewrite ?Hc, ?andb_false_r; cbn; lia.
-  - unfold gmode. destruct (wop_code cf o) as [[gsh ?]|]; rewrite ?Hc, ?andb_false_r; cbn; lia.
-Qed.
-Lemma always_R cf progs (P : sysW -> Prop) : (forall s, R cf progs s -> P s) ->
-  forall sched s, R cf progs s -> always cf P s sched.
-Proof.
-  intros HP. induction sched as [|tc r IH]; intros s HR; cbn; split; auto. apply IH. apply R_step. exact HR.
-Qed.
-Corollary wr_trace_discipline_plain_mutex cf progs sched : shcap cf = false ->
-  safe cf (gl (run glob loc (tstep cf) (init cf progs) sched)) ->
-  trace_ok prot st0 (acts_of (snd (run_lines glob loc (tstep cf) (init cf progs) sched))).
-Proof.
-  intros Hc Hs. apply wr_trace_discipline; [exact Hs|].
-  apply (always_R cf progs); [intros s HR; apply (plain_mutex_no_reshare cf progs); assumption|apply reachable_refl].
-Qed.
+Proof. intros Hs. apply (lockset_race_free_init prot). apply wr_trace_discipline; assumption. Qed.
